@@ -18,6 +18,12 @@ pub fn check_vehicle_load(context: &CheckerContext) -> Result<(), Vec<GenericErr
 fn check_vehicle_load_assignment(context: &CheckerContext) -> GenericResult<()> {
     context.solution.tours.iter().try_for_each::<_, GenericResult<_>>(|tour| {
         let capacity = MultiDimLoad::new(context.get_vehicle(&tour.vehicle_id)?.capacity.clone());
+
+        // NOTE: a tour with a single stop (all jobs are served at departure location) has no legs
+        if let [stop] = tour.stops.as_slice() {
+            return check_single_stop_load(context, tour, stop, &capacity);
+        }
+
         let intervals = get_intervals(context, tour);
 
         intervals
@@ -98,6 +104,62 @@ fn check_vehicle_load_assignment(context: &CheckerContext) -> GenericResult<()> 
             })
             .map(|_| ())
     })
+}
+
+fn check_single_stop_load(
+    context: &CheckerContext,
+    tour: &Tour,
+    stop: &Stop,
+    capacity: &MultiDimLoad,
+) -> GenericResult<()> {
+    // NOTE: (start, end) loads for each interval between reloads
+    let intervals = stop.activities().iter().try_fold::<_, _, GenericResult<_>>(
+        vec![(MultiDimLoad::default(), MultiDimLoad::default())],
+        |mut intervals, activity| {
+            if activity.activity_type == "reload" {
+                intervals.push((MultiDimLoad::default(), MultiDimLoad::default()));
+                return Ok(intervals);
+            }
+
+            let activity_type = context.get_activity_type(tour, stop, activity)?;
+            let demand = get_demand(context, activity, &activity_type)?;
+            if let Some((start_load, end_load)) = intervals.last_mut() {
+                match demand {
+                    (DemandType::StaticDelivery, demand) => *start_load = *start_load + demand,
+                    (DemandType::StaticPickup, demand) => *end_load = *end_load + demand,
+                    (DemandType::StaticPickupDelivery, demand) => {
+                        *start_load = *start_load + demand;
+                        *end_load = *end_load + demand;
+                    }
+                    // NOTE: dynamic pickup and delivery of the same job are served at the same stop
+                    _ => {}
+                }
+            }
+
+            Ok(intervals)
+        },
+    )?;
+
+    let load = MultiDimLoad::new(stop.load().clone());
+    let is_fit =
+        intervals.iter().all(|(start_load, end_load)| capacity.can_fit(start_load) && capacity.can_fit(end_load));
+    if !is_fit || !capacity.can_fit(&load) {
+        return Err(format!("load exceeds capacity in tour '{}'", tour.vehicle_id).into());
+    }
+
+    // NOTE: a stop's load is reported after all its activities are done, everything is unloaded on arrival
+    let has_arrival = stop.activities().iter().any(|activity| activity.activity_type == "arrival");
+    let expected_load = if has_arrival {
+        MultiDimLoad::default()
+    } else {
+        intervals.last().map(|(_, end_load)| *end_load).unwrap_or_default()
+    };
+
+    if load == expected_load {
+        Ok(())
+    } else {
+        Err(format!("load mismatch at stop 0 in tour '{}'", tour.vehicle_id).into())
+    }
 }
 
 fn check_resource_consumption(context: &CheckerContext) -> GenericResult<()> {
